@@ -161,6 +161,50 @@ let handle (toks: string list) : string =
   | "mkdecide" :: id :: os :: kind :: ty :: wrap :: [] ->
       let cs (s:string) = List.init (String.length s) (fun i -> n_of_int (Char.code s.[i])) in
       id ^ " " ^ (if decide (cs os) (cs kind) (cs ty) (if wrap = "-" then None else Some (cs wrap)) then "accept" else "refuse")
+  | "tokas" :: id :: addr :: hex :: [] ->
+      (* structure of an Applesoft token stream: walk the lines, re-assemble them at the load address, follow the links *)
+      let b = hexarg hex in
+      let a = n_of_int (int_of_string addr) in
+      let fuel = nat_of_int (List.length b + 2) in
+      (match scan_as fuel b with
+       | ROk ls ->
+           (match asm_as a ls with
+            | ROk b2 ->
+                if b2 <> b then id ^ " mismatch:reassembled-differs " ^ hex_of_bytes b2
+                else (match follow_links fuel a a b with
+                      | ROk addrs -> id ^ " ok lines=" ^ string_of_int (List.length ls) ^ " links=" ^ string_of_int (List.length addrs)
+                      | _ -> id ^ " mismatch:links-do-not-close")
+            | RPanic _ -> id ^ " mismatch:address-overflow"
+            | _ -> id ^ " mismatch:asm")
+       | _ -> id ^ " mismatch:scan")
+  | "tokint" :: id :: hex :: [] ->
+      let b = hexarg hex in
+      let fuel = nat_of_int (List.length b + 2) in
+      (match scan_int fuel b with
+       | ROk ls -> (match asm_int ls with
+                    | ROk b2 -> if b2 = b then id ^ " ok lines=" ^ string_of_int (List.length ls) else id ^ " mismatch:reassembled-differs " ^ hex_of_bytes b2
+                    | _ -> id ^ " mismatch:asm")
+       | RErr c -> id ^ " mismatch:scan-err" ^ string_of_int (int_of_n c)
+       | _ -> id ^ " mismatch:scan")
+  | "escas" :: id :: ctx :: hex :: [] ->
+      let b = hexarg hex in
+      let c = n_of_int (int_of_string ctx) in
+      let (e, rest) = as_escape c (if ctx = "0" then n_of_int 1 else N0) b in
+      id ^ " " ^ hex_of_bytes e ^ ". " ^ string_of_int (List.length b - List.length rest) ^ " " ^ hex_of_bytes (unesc false false O e) ^ "."
+  | "escint" :: id :: ctx :: hex :: [] ->
+      let b = hexarg hex in
+      let (e, rest) = int_escape (n_of_int (int_of_string ctx)) b in
+      id ^ " " ^ hex_of_bytes e ^ ". " ^ string_of_int (List.length b - List.length rest) ^ " " ^ hex_of_bytes (unesc true true O e) ^ "."
+  | "unesc" :: id :: inv :: caps :: hex :: [] ->
+      id ^ " " ^ hex_of_bytes (unesc (inv = "1") (caps = "1") O (hexarg hex)) ^ "."
+  | "menc" :: id :: hex :: [] -> id ^ " " ^ hex_of_bytes (m_enc_line (hexarg hex)) ^ "."
+  | "mdec" :: id :: hex :: [] ->
+      let rec go bs acc = (match bs with
+        | [] -> String.concat "|" (List.rev acc)
+        | _ -> (match m_dec_line bs with
+                | ROk (l, rest) -> go rest (String.concat "" (List.map (fun x -> if int_of_n x = 256 then "SS" else Printf.sprintf "%02x" (int_of_n x)) l) :: acc)
+                | _ -> "err")) in
+      id ^ " " ^ go (hexarg hex) [] ^ "."
   | "crc32" :: id :: hex :: [] -> id ^ " " ^ string_of_int (int_of_n (crc32 N0 (hexarg hex)))
   | "crc16" :: id :: seed :: hex :: [] -> id ^ " " ^ string_of_int (int_of_n (crc16 (n_of_int (int_of_string seed)) (hexarg hex)))
   | "imdtrk" :: id :: _kind :: secsize :: nsec :: rest ->
